@@ -1,6 +1,6 @@
 (* Correspondence cases for C09: an op history on a layered store, one observation at its end,
    what the implementation returned; compared with the mechanism model AND with the ordered-map specification. *)
-From NG Require Import Common.Tactics Common.HarnessLib Store.Bytes Store.Model Store.Model2 Store.Spec Store.Conc.
+From NG Require Import Common.Tactics Common.HarnessLib Store.Bytes Store.Model Store.Model2 Store.Spec Store.Conc Store.Conc2.
 Open Scope N_scope.
 
 (* short names for generated terms *)
@@ -18,7 +18,13 @@ Definition GT := OGcTop.
 (* one action of a schedule (Store/Conc.v); the reader's range is given once per case *)
 Inductive sact := SW (b : lmap) | SSwap | SLw | SUn | SSnap | SRead.
 
+(* one action of a two-layer schedule (Store/Conc2.v) *)
+Inductive sact2 := TW1 (b : lmap) | TW2 (b : lmap) | TSwap | TLw | TUn | TSnap1 | TSnap2 | TRead.
+
 Inductive case :=
+| CSched2 (bk : N) (acts : list sact2) (r : range) (impl : kvs)
+    (* two shared layers over a base store: writes into the top (TW1) and the middle layer (TW2), the three regions of
+       the MIDDLE layer's Persist, one reader on the top layer in its three steps; any SearchDepth; impl = its answer *)
 | CSched (bk : N) (acts : list sact) (r : range) (impl : kvs)
     (* a schedule of lock regions on one shared MemCachedStore over a base store: batch writes, the three regions
        of Persist, and ONE reader (SSnap = SeekAsync returned: snapshot taken and ps captured; SRead = its goroutine
@@ -110,8 +116,64 @@ Definition check_sched (bk : backend) (acts : list sact) (r : range) (impl : kvs
   | None => 3
   end.
 
+Definition to_action2 (r : range) (a : sact2) : action2 :=
+  match a with
+  | TW1 b => BWrite1 (sorted_batch b) | TW2 b => BSub (AWrite (sorted_batch b))
+  | TSwap => BSub ASwap | TLw => BSub ALowerWrite | TUn => BSub AUnswap
+  | TSnap1 => BSnap1 r | TSnap2 => BSub (ASnap r) | TRead => BSub ARead
+  end.
+
+Fixpoint split_at2 (f : sact2 -> bool) (l : list sact2) : option (list sact2 * list sact2) :=
+  match l with
+  | [] => None
+  | a :: t => if f a then Some ([], t)
+              else match split_at2 f t with Some (p, q) => Some (a :: p, q) | None => None end
+  end.
+Definition is_t (k : N) (a : sact2) : bool :=
+  match a, k with TSnap1, 1 => true | TSnap2, 2 => true | TRead, 3 => true | _, _ => false end.
+Definition is_reader2 (a : sact2) : bool := match a with TSnap1 | TSnap2 | TRead => true | _ => false end.
+Definition sact2_ok (a : sact2) : bool :=
+  match a with TW1 b | TW2 b => forallb (fun kv => negb (isnil (fst kv)) && bytes_okb (fst kv)) b | _ => true end.
+
+Fixpoint instants2 (c : c2state) (mid : list action2) : list c2state :=
+  c :: match mid with [] => [] | a :: t => instants2 (c2step c a) t end.
+
+(* the reader's steps in order: pre, TSnap1, m1, TSnap2, m2, TRead, post; no other reader step anywhere *)
+Definition check_sched2 (bk : backend) (acts : list sact2) (r : range) (impl : kvs) : N :=
+  match split_at2 (is_t 1) acts with
+  | Some (pre, rest1) =>
+      match split_at2 (is_t 2) rest1 with
+      | Some (m1, rest2) =>
+          match split_at2 (is_t 3) rest2 with
+          | Some (m2, post) =>
+              if existsb is_reader2 (pre ++ m1 ++ m2 ++ post) then 3
+              else
+                let c0 := {| top := []; sub := {| cbk := bk; cm := []; ctemp := None; cx := []; rsnap := None; rans := None |};
+                             r1 := None; ans2 := None |} in
+                let tr := fun l => map (to_action2 r) l in
+                let c1 := c2run c0 (tr pre) in
+                let window := BSnap1 r :: tr m1 ++ BSub (ASnap r) :: tr m2 in
+                let c2 := c2step (c2run c1 window) (BSub ARead) in
+                let model_ok := option_eqb kvs_eqb (ans2 c2) (Some impl) in
+                let spec_ok := existsb (fun c => kvs_eqb (rq r (flat_depth_layers (rdepth r) (phys c) (cx (sub c)))) impl)
+                                       (instants2 c1 window) in
+                if spec_ok then (if model_ok then 0 else 1) else 2
+          | None => 3
+          end
+      | None => 3
+      end
+  | None => 3
+  end.
+
 Definition check_case (c : case) : N :=
   match c with
+  | CSched2 bk acts r impl =>
+      match backend_of bk with
+      | Some b =>
+          if forallb sact2_ok acts && bytes_okb (rprefix r) && bytes_okb (rstart r) && negb (isnil (rprefix r))
+          then check_sched2 b acts r impl else 3
+      | None => 3
+      end
   | CSched bk acts r impl =>
       match backend_of bk with
       | Some b =>
